@@ -63,7 +63,7 @@ fn main() {
                 "enc" => e3::enc(&mut rec, &mut rng, thorough),
                 "repair" => { e3::repair(&mut rec, &mut rng, thorough); e3::repair_plan_history(&mut rec, &mut rng, thorough); e3::repair_long_windows(&mut rec, &mut rng, thorough); }
                 "object" => { e3::object(&mut rec, &mut rng, thorough); e3::object_many_symbols(&mut rec, &mut rng, thorough); e3::object_huge_decoders(&mut rec, &mut rng, thorough); }
-                "decblk" => { e3::decblk(&mut rec, &mut rng, thorough); e3::decblk_directed(&mut rec, &mut rng, thorough); e3::decblk_malformed(&mut rec, &mut rng, thorough); e3::decblk_flooded(&mut rec, &mut rng, thorough); }
+                "decblk" => { e3::decblk(&mut rec, &mut rng, thorough); e3::decblk_directed(&mut rec, &mut rng, thorough); e3::decblk_malformed(&mut rec, &mut rng, thorough); e3::decblk_flooded(&mut rec, &mut rng, thorough); e3::decblk_deficient_prefix(&mut rec, &mut rng, thorough); }
                 "decobj" => e3::decobj(&mut rec, &mut rng, thorough),
                 "inter" => e3::inter(&mut rec, &mut rng, thorough),
                 "overhead" => e3::overhead(&mut rec, &mut rng, thorough),
@@ -72,7 +72,7 @@ fn main() {
                 "fastpath" => e3::fastpath(&mut rec, &mut rng, thorough),
                 "solver" => e3::solver(&mut rec, &mut rng, thorough),
                 "plan" => e3::plan(&mut rec, &mut rng, thorough),
-                "linear" => { e3::linear(&mut rec, &mut rng, thorough); e3::linear_wide(&mut rec, &mut rng, thorough); }
+                "linear" => { e3::linear(&mut rec, &mut rng, thorough); e3::linear_wide(&mut rec, &mut rng, thorough); e3::linear_huge_blocks(&mut rec, &mut rng, thorough); }
                 "matrices" => e4::matrices(&mut rec, &mut rng, thorough),
                 "cache" => e5::cache(&mut rec, &mut rng, thorough),
                 "wire" => e2::wire(&mut rec, &mut rng, thorough),
